@@ -19,3 +19,20 @@ claim("C14", "E2-enumerate", "bounded-exhaustive enumeration of localizer x lang
       "Every one of the 6 localizers x 8 languages x all relative paths up to depth 4 (quick) / 5 (thorough) plus degenerate paths is executed and compared with the specification table; exhaustive within that scope, which contains one path per structural case of the mapping (single component, trailing slash, non-ASCII, blank and marker-like components).",
       "Trusted: the specification table in ref_loc.rs (written from the property statement); paths outside the plain-component domain are not judged. The filesystem half is decided under C12/C13.",
       "DESIGN.md §4 C14")
+
+claim("C08", "E2-enumerate", "bounded-exhaustive input enumeration through the real compressor, output walked token-by-token by an independent LZ10 decoder",
+      "All strings over alphabets of 2/3/4 symbols up to length 17/11/8 (quick; 21/13/10 thorough), a structure grid forcing every reference length, window-edge displacements and every flag-group ending, and header-boundary lengths are compressed by mila; each output is validated structurally and expanded by an independent decoder and by the library. Exhaustive within those families.",
+      "Trusted: ref_lz.rs (decoder written from the format description). 'Every input shorter than 16 MiB' is covered at length boundaries and by small-scope exhaustion only.",
+      "DESIGN.md §4 C08")
+claim("C09", "E2-enumerate + E3-isolate", "bounded-exhaustive input enumeration (both arithmetic builds) with subprocess isolation for inputs that may abort",
+      "Same families as C08 through LZ13 in the unchecked and the overflow-checked build; the payload after the 0x13 wrapper is validated by an independent LZ11 decoder (all three length forms measured as reached); tiny inputs including the empty one are run in subprocesses so a process abort is attributed to the case.",
+      "Trusted: ref_lz.rs. For the empty input Ok or Err are both accepted (statement leaves it open).",
+      "DESIGN.md §4 C09")
+claim("C10", "E2-enumerate", "bounded-exhaustive enumeration: expansion bound on every family member, effectiveness bound on the full periodic grid",
+      "Expansion bound asserted for both codecs on all small-alphabet strings, incompressible inputs of every length 0..=64 and the structure grid; effectiveness bound asserted for periods (all 1..=4096 at the thorough tier) x 2 pattern generators x 9 total lengths, with the bound computed from n and p alone.",
+      "Trusted: the bound formulas in ref_lz.rs (copied from the property statement).",
+      "DESIGN.md §4 C10")
+claim("C11", "E3-isolate", "exhaustive enumeration of token sequences (reference encoder) and of derived corruptions, executed in isolated workers in both builds",
+      "From 7 start states all token sequences up to depth 4 (LZ10) / 3-4 (LZ11, every length form incl. lengths mila never emits) over literal + reference(len, disp) are encoded by the reference encoder and decompressed through the 4 entry points; every strict prefix, every reference rewritten to before the start, every other type byte, all byte strings of length <= 2 and a 7-symbol alphabet up to length 5, and the stored form are required to behave as the statement says; panics are located, aborts/timeouts attributed by subprocess isolation.",
+      "Trusted: ref_lz.rs encoder/decoder (self-checked against each other on every case). Inputs the statement does not classify (trailing bytes, LZ11 at the LZ10 entry, overshooting references) are only required not to panic.",
+      "DESIGN.md §4 C11")
